@@ -329,7 +329,7 @@ create_dice(void)
   /* Create the internal alphabet
    */
   if ((a = esl_alphabet_CreateCustom("123456-X*~", 6, 10)) == NULL) return NULL;
-  a->type = eslCOINS;
+  a->type = eslDICE;
 
   /* Add desired synonyms in the input map.
    */
